@@ -89,6 +89,8 @@ def Reader.init (C : Ctx) (K : HConsts) (R : Registry) (lines : List Text) (mode
       match r2.next with
       | some l => (r2.advance, some (splitOn '\t' l))
       | none => (r2, none)
+    -- the physical line of the column names, remembered before looking ahead
+    let colLine := r2.lineNo
     -- `__update_scheme__`
     let hs := h.scheme K R
     let (e1, sch1) : List VErr × Option Scheme :=
@@ -111,7 +113,7 @@ def Reader.init (C : Ctx) (K : HConsts) (R : Registry) (lines : List Text) (mode
       match colNames, sch2 with
       | some names, some s =>
         let snames := s.names.map String.toList
-        let ln := some (r3.lineNo - 1)
+        let ln := some colLine
         let origin := some (hlines.length + 1)
         if names.length ≠ snames.length then
           [{ tpe := "SCHEME_MISMATCHING_NUMBER_OF_COLUMN_NAMES", line := ln, origin := origin }]
